@@ -224,7 +224,10 @@ def build_driver():
         shutil.rmtree(gen, ignore_errors=True)
         os.makedirs(gen)
         # extraction needs every model file compiled (a check may have built only what its own property file needs)
-        okm, logm = build_coq_target(" ".join(f[:-2] + ".vo" for f in coqproject_files() if not f.startswith("properties/")))
+        # (only the files the extraction requires: a tie-B lemma that no longer compiles must not stop the exploration)
+        need = set(re.findall(r"[A-Za-z0-9_]+", " ".join(re.findall(r"From FV Require ([^.]*)\.", open(ext).read()))))
+        okm, logm = build_coq_target(" ".join(f[:-2] + ".vo" for f in coqproject_files()
+                                              if os.path.basename(f)[:-2] in need))
         if not okm:
             return False, "model files do not compile:\n" + first_error(logm)
         rc, out = sh("timeout 600 coqc %s -o %s/Extract.vo %s" % (" ".join(qflags()), gen, ext), cwd=gen, timeout=700)
